@@ -858,6 +858,13 @@ impl<'b> InnerBucket<'b> {
                         // Make that child page the bucket's root page.
                         self.meta.root_page = page_id;
                         self.root = PageNodeID::Page(page_id);
+                        // spill starts from the root node, so the new root must be loaded even if
+                        // nothing below it was touched in this transaction
+                        self.node(PageNodeID::Page(page_id), None);
+                    } else if !node.leaf() && node.data.len() == 0 {
+                        // every child was emptied and removed: the bucket is empty again,
+                        // and an empty bucket's root is an empty leaf
+                        node.data = NodeData::Leaves(Vec::new());
                     }
                 } else {
                     // else find a sibling and merge this node with that one
@@ -871,7 +878,9 @@ impl<'b> InnerBucket<'b> {
                         // since there are no siblings to move the data to.
                         // When we handle the parent, it will get merged with it's siblings or promoted
                         // to root.
-                        if branches.len() == 1 {
+                        // An empty node is removed all the same: it has nothing to move, and it must not
+                        // stay in the tree (the parent, empty in turn, is removed or reset when we get to it).
+                        if branches.len() == 1 && node.data.len() > 0 {
                             continue;
                         }
                         // check if there is any data left to copy
